@@ -110,7 +110,7 @@ func genC20(t *rapid.T) C20Case {
 		case 0, 1, 2, 3:
 			c.Edits = append(c.Edits, Edit{Path: rapid.SampledFrom(sections).Draw(t, "path"), Op: rapid.SampledFrom([]string{"drop", "drop", "null", "empty"}).Draw(t, "op")})
 		case 4:
-			c.Edits = append(c.Edits, Edit{Path: "configuration.sbi.scheme", Op: "set", Val: rapid.SampledFrom([]string{"http", "https", "", "ftp", "HTTP", "h2c"}).Draw(t, "scheme")})
+			c.Edits = append(c.Edits, Edit{Path: "configuration.sbi.scheme", Op: "set", Val: rapid.SampledFrom([]string{"http", "https", "", "ftp", "HTTP", "h2c", "HTTPS", "Https", "https ", "httpss"}).Draw(t, "scheme")})
 		case 5:
 			p := rapid.SampledFrom([]string{"configuration.sbi.port", "configuration.rfDiameter.port", "configuration.abmfDiameter.port", "configuration.cgf.port", "configuration.cgf.listenPort"}).Draw(t, "portPath")
 			c.Edits = append(c.Edits, Edit{Path: p, Op: "setint", Val: rapid.SampledFrom([]string{"0", "1", "65535", "65536", "-1"}).Draw(t, "port")})
@@ -124,7 +124,7 @@ func genC20(t *rapid.T) C20Case {
 			p := rapid.SampledFrom([]string{"configuration.sbi.bindingIPv4", "configuration.rfDiameter.hostIPv4", "configuration.abmfDiameter.hostIPv4", "configuration.mongodb.url", "configuration.nrfUri"}).Draw(t, "hostPath")
 			c.Edits = append(c.Edits, Edit{Path: p, Op: "set", Val: rapid.SampledFrom([]string{"127.0.0.1", "localhost", "256.1.1.1", "not a host", "mongodb://127.0.0.1:1", "http://nrf"}).Draw(t, "host")})
 		default:
-			c.Edits = append(c.Edits, Edit{Path: "configuration.sbi.scheme", Op: "set", Val: "https"}, Edit{Path: "configuration.sbi.tls", Op: "drop"})
+			c.Edits = append(c.Edits, Edit{Path: "configuration.sbi.scheme", Op: "set", Val: rapid.SampledFrom([]string{"https", "https", "HTTPS", "Https"}).Draw(t, "httpsSpelling")}, Edit{Path: "configuration.sbi.tls", Op: "drop"})
 		}
 	}
 	return c
@@ -212,7 +212,9 @@ func mustReject(m map[string]interface{}) (string, bool) {
 		}
 	}
 	if s, ok := get(m, "configuration.sbi.scheme"); ok {
-		if ss, ok := s.(string); ok && ss != "http" && ss != "https" {
+		// "other than http/https": a different spelling of the same two schemes (HTTP, Https) is not demanded to be
+		// rejected - if validation accepts it, the configuration has to start like any other accepted one
+		if ss, ok := s.(string); ok && strings.ToLower(ss) != "http" && strings.ToLower(ss) != "https" {
 			return "bad-scheme", true
 		}
 	}
@@ -368,9 +370,30 @@ func TestC20SingleEdits(t *testing.T) {
 				}
 			}
 		}
-		for j, l := range []string{"nchf-convergedcharging,nchf-offlineonlycharging,nchf-convergedcharging", "nchf-convergedcharging,nchf-convergedcharging", "nchf-spendinglimitcontrol,nchf-offlineonlycharging,nchf-convergedcharging", "nchf-offlineonlycharging"} {
+		lists := []string{"nchf-convergedcharging,nchf-offlineonlycharging,nchf-convergedcharging", "nchf-convergedcharging,nchf-convergedcharging", "nchf-spendinglimitcontrol,nchf-offlineonlycharging,nchf-convergedcharging", "nchf-offlineonlycharging"}
+		// an unknown name at every position of lists of one to three entries
+		known := []string{"nchf-convergedcharging", "nchf-offlineonlycharging", "nchf-spendinglimitcontrol"}
+		for _, bogus := range []string{"nchf-bogus", "NCHF-CONVERGEDCHARGING", "nchf-convergedcharging "} {
+			lists = append(lists, bogus, bogus+","+known[0], known[0]+","+bogus, known[1]+","+known[2]+","+bogus, known[1]+","+bogus+","+known[2], bogus+","+known[2]+","+known[0])
+		}
+		for j, l := range lists {
 			if j%nsh == shard {
 				if !yield(C20Case{Edits: []Edit{{Path: "configuration.serviceNameList", Op: "list", Val: l}}}) {
+					return
+				}
+			}
+		}
+		// every spelling of the scheme, with and without the tls block
+		for j, sc := range []string{"http", "https", "HTTP", "Http", "HTTPS", "Https", "hTTps", "", "ftp", "h2c", "https ", "httpss", "ws"} {
+			for k, dropTLS := range []bool{false, true} {
+				if (2*j+k)%nsh != shard {
+					continue
+				}
+				ed := []Edit{{Path: "configuration.sbi.scheme", Op: "set", Val: sc}}
+				if dropTLS {
+					ed = append(ed, Edit{Path: "configuration.sbi.tls", Op: "drop"})
+				}
+				if !yield(C20Case{Edits: ed}) {
 					return
 				}
 			}
